@@ -8,7 +8,6 @@ using namespace rml::internal;
 extern "C" void vp_emit(unsigned long v);
 static inline unsigned long idx_bits(BackRefIdx i) { unsigned long b = 0; memcpy(&b, &i, sizeof(i)); return b; }
 static inline BackRefIdx bits_idx(unsigned long b) { BackRefIdx i; memcpy(&i, &b, sizeof(i)); return i; }
-alignas(64) static char tls_space[sizeof(TLSData)];
 
 extern "C" {
 void vp_set_initialized() { mallocInitialized.store(2, std::memory_order_relaxed); }
@@ -21,7 +20,9 @@ unsigned long vp_slab_size() { return slabSize; }
 unsigned vp_objsize(unsigned s) { return getObjectSize(s); }
 
 // ---- large-object front end
-void* vp_make_tls(unsigned cacheIdx) { TLSData* t = new (tls_space) TLSData(defaultMemPool, &defaultMemPool->extMemPool.backend); t->currCacheIdx = cacheIdx; return t; }
+// the harness owns a zero-filled TLSData object (what bootStrapBlocks.allocate() delivers); only the fields getFromLLOCache uses are set
+void vp_tls_setup(void* tls, unsigned cacheIdx) { TLSData* t = (TLSData*)tls; t->memPool = defaultMemPool; t->currCacheIdx = cacheIdx; t->lloc.head.store(nullptr, std::memory_order_relaxed); }
+unsigned vp_tls_cache_idx(void* tls) { return ((TLSData*)tls)->currCacheIdx; }
 void* vp_llo(void* tls, unsigned long size, unsigned long alignment) { return defaultMemPool->getFromLLOCache((TLSData*)tls, size, alignment); }
 void* vp_alloc_aligned(unsigned long size, unsigned long alignment) { return allocateAligned(defaultMemPool, size, alignment); }
 void* vp_pool_malloc(unsigned long size) { return internalPoolMalloc(defaultMemPool, size); }
